@@ -90,13 +90,32 @@ def strategy(tier: str, pid: str = "C16") -> st.SearchStrategy[Any]:
         st.tuples(st.just("res"), st.lists(st.sampled_from(["failed", "succeeded", "none"]), min_size=3, max_size=3)).map(list),
         adv_all, adv_small, adv_small,
     )
+    # short scripted phrases (expanded into atomic operations) make the rarer orderings frequent: a success
+    # that arrives after the block has expired, consecutive failures around the deadline, near-silences
+    phrases = [
+        [["res", "failed"], ["adv", 1.1], ["bat", "ok"], ["res", "succeeded"], ["res", "failed"], ["adv", 1.1], ["inv", "ok"]],
+        [["res", "failed"], ["adv", 1.1], ["bat", "ok"], ["res", "failed"], ["adv", 2.1], ["inv", "ok"], ["res", "failed"],
+         ["adv", 4.0], ["bat", "ok"]],
+        [["res", "failed"], ["adv", 0.9], ["res", "succeeded"], ["res", "failed"], ["adv", 1.0], ["bat", "ok"]],
+        [["adv", 9.9], ["bat", "ok"], ["adv", 0.2], ["inv", "ok"]],
+        [["bat", "relay"], ["bat", "ok"], ["res", "failed"], ["adv", 1.1], ["inv", "ok"]],
+        [["res", "failed"], ["adv", 1.1], ["inv", "ok"], ["res", "none"], ["res", "failed"], ["adv", 1.9], ["bat", "ok"],
+         ["adv", 0.2], ["bat", "ok"]],
+    ]
+    phrase = st.sampled_from(phrases)
     nops = 30 if tier == "quick" else 80
     pool_status = st.fixed_dictionaries({
         "working": st.sets(st.integers(1, 5)), "uncertain": st.sets(st.integers(1, 5)),
         "asked": st.sets(st.integers(1, 6)),
     }).map(lambda d: {k: sorted(x) for k, x in d.items()})
+    def flatten(items: list[Any]) -> list[Any]:
+        out: list[Any] = [["bat", "ok"], ["inv", "ok"]]
+        for item in items:
+            out += item if item and isinstance(item[0], list) else [item]
+        return out[: nops + 2]
+
     single = st.fixed_dictionaries({
-        "ops": st.lists(op, min_size=4, max_size=nops).map(lambda ops: [["bat", "ok"], ["inv", "ok"]] + ops),
+        "ops": st.lists(st.one_of(op, op, op, op, phrase), min_size=4, max_size=nops).map(flatten),
         "pool": pool_status,
     })
     pool = st.fixed_dictionaries({
